@@ -18,6 +18,9 @@ type Role struct {
 	NIn      int
 	NOut     int
 	HasIndex bool // slice function takes the index
+	Fallback bool // task carries FallbackWith
+	HasPred  bool // task carries a Predicate
+	Instr    bool // task is instrumented
 }
 
 // Instance is one expanded directive: the wrapper closure and what is known about it.
@@ -41,6 +44,7 @@ type Instance struct {
 	NEmitters            int
 	SourceMap            bool
 	Anchors              []string // template files this instance was rendered from
+	GoMinor              int      // minor version of the `go` directive governing the generated code (loop variable semantics)
 }
 
 // Pos renders a position inside the instance's source.
